@@ -436,6 +436,8 @@ func (p *PitCsTree) eraseCsDataFromReplacementStrategy(index uint64) {
 		entry.node.csEntry = nil
 		delete(p.csMap, index)
 		p.nCsEntries--
+		// Release name tree nodes that only existed for this entry
+		entry.node.pruneIfEmpty()
 	}
 }
 
